@@ -3,7 +3,7 @@ From Coq Require Import List ZArith NArith Bool.
 From Common Require Import Base.
 From Arith Require Import Model.
 From Opt Require Import Generic Model Proofs.
-From GoSub Require Import Model Proofs Stmt StmtProofs StmtMain.
+From GoSub Require Import Model Proofs Stmt StmtProofs StmtMain StmtIf.
 Import ListNotations.
 Open Scope Z_scope.
 
@@ -60,13 +60,19 @@ Proof. repeat split; vm_compute; reflexivity. Qed.
 Definition C01_stmt_statement : Prop :=
   forall m k en p, guarded k en p = true -> whole_ok m k en p.
 
-(* Straight-line core programs (x := e, x = e, x op= e, x++ / x--, fmt.Println(e), sequencing) over any integer kind,
-   in every type mode, from any environment of in-range variables: the code the compiler emits (let markers,
-   Load/arith/SymbolCreate/Store/DropToMarker, the native print), run by the VM model from its first instruction with
-   enough fuel, ends normally with exactly Go's final environment and Go's printed values, the stack empty again - or stops
-   with division by zero, having printed what Go printed, exactly when Go panics.  Guard: Go's typing, no literal on the
-   right of := / = (recorded finding: dynamic mode retypes the variable), names fresh / declared. *)
-Theorem C01_stmt_compile_correct_partial : forall m k en p,
+(* Core programs (x := e, x = e, x op= e, x++ / x--, fmt.Println(e), sequencing, if/else on a comparison, nested to any
+   depth) over any integer kind, in every type mode, from any environment of in-range variables: the code the compiler emits
+   (let markers, Load/arith/SymbolCreate/Store/DropToMarker, the native print, BranchFalse/Branch with absolute addresses),
+   run by the VM model from its first instruction with enough fuel (one unit per branch taken), ends normally with exactly
+   Go's final environment and Go's printed values, the stack empty again - or stops with division by zero, having printed
+   what Go printed, exactly when Go panics.  Guard: Go's typing, no literal on the right of := / = (recorded finding: dynamic
+   mode retypes the variable), declarations at top level only, names fresh / declared. *)
+Theorem C01_stmt_compile_correct_partial : forall m k en p, guarded k en p = true -> whole_ok m k en p.
+Proof. exact stmt_compile_correct. Qed.
+Theorem C01_stmt_full : C01_stmt_statement.
+Proof. exact stmt_compile_correct. Qed.
+(* the earlier, weaker form (kept for reference) *)
+Theorem C01_stmt_compile_correct_noif : forall m k en p,
   no_if p = true -> guarded k en p = true -> whole_ok m k en p.
 Proof. exact stmt_compile_correct_noif. Qed.
 
@@ -82,4 +88,18 @@ Example C01_stmt_nonvacuous :
   go_result I8 [(x_, 100); (a_, 3)] p_demo = [53; 18; 0] /\ vm_exec Strict I8 [(x_, 100); (a_, 3)] p_demo = [53; 18; 0] /\
   guarded I8 [(x_, 100); (a_, 0)] p_demo = true /\
   go_result I8 [(x_, 100); (a_, 0)] p_demo = [44; 1] /\ vm_exec Dynamic I8 [(x_, 100); (a_, 0)] p_demo = [44; 1].
+Proof. repeat split; vm_compute; reflexivity. Qed.
+
+(* non-vacuity with nested if/else: both arms, an arm that panics *)
+Definition p_if : stmt :=
+  SSeq (SDecl y_ (EBin BMul (EVar x_) (EConst 2)))
+  (SSeq (SIf CLt (EVar y_) (EBin BAdd (EVar a_) (EConst 1))
+           (SSeq (SAssign y_ (EVar a_)) (SPrint (EVar y_)))
+           (SIf CGe (EVar a_) (EConst 2) (SIncDec false y_) (SOpAssign BDiv y_ (EVar a_))))
+        (SPrint (EVar y_))).
+Example C01_stmt_if_nonvacuous :
+  guarded I8 [(x_, 100); (a_, 3)] p_if = true /\
+  go_result I8 [(x_, 100); (a_, 3)] p_if = [3; 3; 0] /\ vm_exec Strict I8 [(x_, 100); (a_, 3)] p_if = [3; 3; 0] /\
+  go_result I8 [(x_, 50); (a_, 3)] p_if = [99; 0] /\ vm_exec Relaxed I8 [(x_, 50); (a_, 3)] p_if = [99; 0] /\
+  go_result I8 [(x_, 50); (a_, 0)] p_if = [1] /\ vm_exec Dynamic I8 [(x_, 50); (a_, 0)] p_if = [1].
 Proof. repeat split; vm_compute; reflexivity. Qed.
